@@ -427,6 +427,9 @@ def gen_lines(ctx):
     # object merges into a destination that is exactly full and holds removed members, every merge form
     for ops in V.full_merge_cases():
         add(ops)
+    # every copying operation on an empty source that owns storage, then a write into the copy
+    for ops in V.copy_then_write_cases():
+        add(ops)
     return lines, opss, n_corpus, n_exh
 
 
